@@ -89,9 +89,32 @@ func GenPFB(t *sim.Tape, maxSegs, maxLen int, allow ...PFBAnomaly) (*PFBStream, 
 		if t.Choose(400) == 0 {
 			l = 65530 + t.Choose(600) // lengths that need the third length byte
 		}
+		if t.Choose(600) == 0 {
+			l = 100_000 + t.Choose(200_000) // much more than any scratch buffer
+		}
 		s.Declared = l
 		s.Data = make([]byte, l)
-		mode := t.Choose(3)
+		mode := t.Choose(4)
+		if l > 4096 {
+			mode = 2 // no per-byte draws for big segments
+		}
+		if mode == 3 && l >= 8 {
+			// what real fonts look like: text ending in "eexec" + newline, and
+			// binary data that may happen to start with hexadecimal digits
+			if s.Type == 1 {
+				for j := range s.Data {
+					s.Data[j] = byte('a' + (j % 26))
+				}
+				copy(s.Data[l-6:], "eexec"+[]string{"\n", "\r", " "}[t.Choose(3)])
+			} else {
+				for j := range s.Data {
+					s.Data[j] = byte(t.Choose(256))
+				}
+				copy(s.Data, []string{"0123", "abcd", "FFFF", "9a9B", "01 2"}[t.Choose(5)])
+			}
+			p.Segs = append(p.Segs, s)
+			continue
+		}
 		for j := range s.Data {
 			switch mode {
 			case 0:
